@@ -185,6 +185,36 @@ def gen_histories(tier, rng, push_every=6, header_changes=False):
                     mids = [h.join(k) for k in kinds]
                 count += 1
                 yield Case(h.line(), cls="join-at-%s" % sname)
+    # systematic re-publish: consumers join at chosen points of the SECOND input of the name
+    for ci, cfg in enumerate(CFGS):
+        for s1 in ("av", "video", "hevc"):
+            for s2 in ("av", "audio", "video", "g711"):
+                for pos in (0, 2, 4, 99):
+                    if tier == "quick" and (ci + pos + len(s1) + len(s2)) % 2:
+                        continue
+                    c = dict(cfg)
+                    h = Hist(rng, c)
+                    stay = h.join(rng.choice(kinds))
+                    h.start()
+                    for idx, kind in enumerate(STREAMS[s1][:rng.choice([3, 5, 9])]):
+                        h.pub(kind, ts=idx * 40)
+                        if kind == "key":
+                            h.ts(True)
+                    h.stop()
+                    h.start()
+                    seq2 = STREAMS[s2][:8]
+                    for idx, kind in enumerate(seq2):
+                        if idx == pos:
+                            for k in kinds:
+                                h.join(k)
+                        h.pub(kind, ts=1000 + idx * 40)
+                        if rng.random() < 0.5:
+                            h.ts(kind == "key")
+                    if pos >= len(seq2):
+                        for k in kinds:
+                            h.join(k)
+                        h.pub("aac" if s2 != "g711" else "g711", ts=5000)
+                    yield Case(h.line(), cls="republish-%s-%s" % (s1, s2))
     # random histories with re-publishing, several consumers, leaves
     n = 400 if tier == "quick" else 4000
     for k in range(n):
